@@ -38,9 +38,10 @@ def replay():
                 lhs = ns.dispatcher((order, 0), m, g[:order], a2, a1, nf) * ns.dispatcher((order, 0), m, g[:order], a1, a0, nf)
                 rhs = ns.dispatcher((order, 0), m, g[:order], a2, a0, nf)
                 if abs(lhs - rhs) > 1e-10 * abs(rhs): out.append(f"NS {m.name} order {order} nf {nf}: composition off by {abs(lhs-rhs)/abs(rhs):.2e}")
-        L = s.dispatcher((1, 0), EvoMethods.ITERATE_EXACT, G[:1], 0.011, 0.019, nf, 1, (1, 0)) @ s.dispatcher((1, 0), EvoMethods.ITERATE_EXACT, G[:1], 0.019, 0.03, nf, 1, (1, 0))
-        R = s.dispatcher((1, 0), EvoMethods.ITERATE_EXACT, G[:1], 0.011, 0.03, nf, 1, (1, 0))
-        if np.max(np.abs(L - R)) > 1e-10 * np.max(np.abs(R)): out.append(f"LO singlet composition nf {nf}")
+        for (x0, x1, x2) in ((0.03, 0.019, 0.011), (0.03, 0.03 * (1 + 3e-6), 0.011), (0.02, 0.011, 0.011 * (1 - 2e-6)), (0.02, 0.02 * (1 + 1e-7), 0.02 * (1 + 9e-6))):
+            L = s.dispatcher((1, 0), EvoMethods.ITERATE_EXACT, G[:1], x2, x1, nf, 1, (1, 0)) @ s.dispatcher((1, 0), EvoMethods.ITERATE_EXACT, G[:1], x1, x0, nf, 1, (1, 0))
+            R = s.dispatcher((1, 0), EvoMethods.ITERATE_EXACT, G[:1], x2, x0, nf, 1, (1, 0))
+            if not np.max(np.abs(L - R)) <= 1e-9 * np.max(np.abs(R)): out.append(f"LO singlet composition nf {nf} couplings {(x0, x1, x2)}: off by {np.max(np.abs(L - R)):.2e}")
     for order in ((1, 1), (2, 2), (3, 1), (4, 2)):
         GG = rng.normal(size=(order[0] + 1, order[1] + 1)) + 0j
         asl = np.array([a] * 4); aem = np.array([0.0007] * 3)
@@ -84,18 +85,10 @@ def run(chk):
             for order in (1, 2, 3, 4):
                 for m in EvoMethods:
                     tag = f"C10.identity[nf={nf},order={order},{m.name}]"
-                    try:
-                        k = ns.dispatcher((order, 0), m, g[:order].copy(), a0, a0, nf)
-                        chk.eq(f"{tag}.ns", k, 1, fn="eko.kernels.non_singlet:dispatcher", goal="K_ns(a0,a0) == 1", replay=rp, ranges=RANGES)
-                    except ZeroDivisionError as e:
-                        chk.fail(f"{tag}.ns", f"division by exact zero: {e}", fn="eko.kernels.non_singlet:dispatcher", replay=rp)
-                    try:
-                        K = s.dispatcher((order, 0), m, G[:order].copy(), a0, a0, nf, 2, (3, 0))
-                        chk.eq_array(f"{tag}.singlet", K, vnp.eye(2), fn="eko.kernels.singlet:dispatcher", goal="K_singlet(a0,a0) == identity", replay=rp)
-                    except T.Unsupported:
-                        raise
-                    except Exception as e:
-                        chk.fail(f"{tag}.singlet", f"{type(e).__name__}: {e}", fn="eko.kernels.singlet:dispatcher", goal="K_singlet(a0,a0) == identity", replay=rp)
+                    for pt, pc, k in chk.run_paths(f"{tag}.ns", lambda: ns.dispatcher((order, 0), m, g[:order].copy(), a0, a0, nf), [a0 > 0], fn="eko.kernels.non_singlet:dispatcher", replay=rp):
+                        chk.eq(pt, k, 1, fn="eko.kernels.non_singlet:dispatcher", goal="K_ns(a0,a0) == 1", replay=rp, ranges=RANGES)
+                    for pt, pc, K in chk.run_paths(f"{tag}.singlet", lambda: s.dispatcher((order, 0), m, G[:order].copy(), a0, a0, nf, 2, (3, 0)), [a0 > 0], fn="eko.kernels.singlet:dispatcher", replay=rp):
+                        chk.eq_array(pt, K, vnp.eye(2), fn="eko.kernels.singlet:dispatcher", goal="K_singlet(a0,a0) == identity", replay=rp)
                     chk.configs += 1
         # ---- (ii) composition, NS --------------------------------------------------------------------------
         fam = {"exact": EvoMethods.ITERATE_EXACT, "expanded": EvoMethods.ITERATE_EXPANDED, "ordered_truncated": EvoMethods.ORDERED_TRUNCATED}
@@ -141,6 +134,16 @@ def run(chk):
     K21, K10, K20 = (s.lo_exact(G[:1], x, y, [beta0]) for x, y in ((a2, a1), (a1, a0), (a2, a0)))
     chk.eq_array("C10.compose.lo_singlet", K21 @ K10, K20, fn="eko.kernels.singlet:lo_exact", goal="E0(a2,a1) E0(a1,a0) == E0(a2,a0)", replay=rp,
                  assumptions=[a0 > 0, a1 > 0, a2 > 0], ranges=RANGES)
+    # the same through the dispatcher, on every feasible path of its equal-coupling test (pairwise distinct couplings)
+    distinct = [a0 > 0, a1 > 0, a2 > 0, T.cmp("!=", a1, a0), T.cmp("!=", a2, a1), T.cmp("!=", a2, a0)]
+    for nf in (3, 4, 5, 6):
+        disp = lambda x, y: s.dispatcher((1, 0), EvoMethods.ITERATE_EXACT, G[:1].copy(), x, y, nf, 1, (1, 0))
+        for t1, pc1, D21 in chk.run_paths(f"C10.compose.lo_singlet.dispatcher[nf={nf}].k21", lambda: disp(a2, a1), distinct, fn="eko.kernels.singlet:dispatcher", replay=rp):
+            for t2, pc2, D10 in chk.run_paths(f"{t1}.k10", lambda: disp(a1, a0), distinct + list(pc1), fn="eko.kernels.singlet:dispatcher", replay=rp):
+                for t3, pc3, D20 in chk.run_paths(f"{t2}.k20", lambda: disp(a2, a0), distinct + list(pc1) + list(pc2), fn="eko.kernels.singlet:dispatcher", replay=rp):
+                    chk.eq_array(f"{t3}", D21 @ D10, D20, fn="eko.kernels.singlet:dispatcher", replay=rp, ranges=RANGES,
+                                 goal="LO singlet through the dispatcher: K(a2,a1) K(a1,a0) == K(a2,a0) for pairwise distinct couplings",
+                                 assumptions=distinct + list(pc1) + list(pc2) + list(pc3))
 
     # ---- QED kernels at equal couplings ---------------------------------------------------------------------------
     a, aem, mu = T.var("a"), T.var("aem"), T.var("mu2")
